@@ -14,6 +14,10 @@ FUNCTIONS = [
     "someip.sd.ServiceDiscover.send_find_services",
     "someip.sd.ServiceDiscover._service_found",
     "someip.sd.ServiceDiscover.start",
+    "someip.sd.ServiceDiscover.watch_service",
+    "someip.sd.ServiceDiscover.watch_all_services",
+    "someip.sd.ServiceDiscover.stop_watch_service",
+    "someip.sd.ServiceDiscover.stop_watch_all_services",
     "someip.config.Service.create_find_entry",
     "someip.config.Service.matches_service",
     "someip.sd.TimedStore.entries",
@@ -280,5 +284,36 @@ def ob_discover_start(vc):
     vc.check_eq(len(sent), 0, "discover.start.sends_nothing_itself")
 
 
-HARNESSES = [SCFG.ob_create_find_entry_refines, SCFG.ob_matches_service_refines, ob_service_found, ob_send_find_services, ob_discover_start, C05.ob_handle_offer, C05.ob_expiry, canary_not_found_means_empty_store]
-EXPECT_COVERS = {"ob_send_find_services": ["nothing-watched", "all-found", "all-rounds", "element", "repetition", "repetition-continues"], "ob_service_found": ["found", "not-found", "stored-offer"]}
+def ob_only_start_creates_the_find_task(vc):
+    """'at most the configured number of repetitions' is per start(): the find rounds are
+    produced by the task start() creates and by nothing else.  Registering or unregistering
+    listeners -- before start, while the rounds run, or after they are over -- creates no
+    task, leaves the task alone and sends nothing."""
+    op = vc.choice("op", ("watch_service", "watch_all_services", "stop_watch_service", "stop_watch_all_services"))
+    w = C05.DWorld(vc, register=op.startswith("stop"), track=())
+    state = vc.choice("discovery", ("not-started", "rounds-running", "rounds-over"))
+    if state != "not-started":
+        w.disc.task = LL.Task(w.loop, None)
+        w.disc.task.finished = state == "rounds-over"
+    task0 = w.disc.task
+    tasks0 = len(w.loop.tasks)
+    sent0 = len(w.sent)
+    vc.cover(op + "/" + state)
+    if op == "watch_service":
+        o = vc.outcome(vc.body(SD.ServiceDiscover.watch_service), w.disc, w.F, w.L)
+    elif op == "watch_all_services":
+        o = vc.outcome(vc.body(SD.ServiceDiscover.watch_all_services), w.disc, w.Lall)
+    elif op == "stop_watch_service":
+        o = vc.outcome(vc.body(SD.ServiceDiscover.stop_watch_service), w.disc, w.F, w.L)
+    else:
+        vc.assume(w.all_registered)
+        o = vc.outcome(vc.body(SD.ServiceDiscover.stop_watch_all_services), w.disc, w.Lall)
+    vc.check(w.disc.task is task0, op + ".leaves_the_find_task_alone")
+    vc.check_eq(len(w.loop.tasks), tasks0, op + ".creates_no_task")
+    vc.check_eq(len(w.sent), sent0, op + ".sends_nothing")
+    if task0 is not None:
+        vc.check(not task0.cancel_requested, op + ".does_not_cancel_the_find_task")
+
+
+HARNESSES = [ob_only_start_creates_the_find_task, SCFG.ob_create_find_entry_refines, SCFG.ob_matches_service_refines, ob_service_found, ob_send_find_services, ob_discover_start, C05.ob_handle_offer, C05.ob_expiry, canary_not_found_means_empty_store]
+EXPECT_COVERS = {"ob_send_find_services": ["nothing-watched", "all-found", "all-rounds", "element", "repetition", "repetition-continues"], "ob_service_found": ["found", "not-found", "stored-offer"], "ob_only_start_creates_the_find_task": ["watch_service/rounds-over", "watch_service/rounds-running", "stop_watch_service/rounds-over", "watch_all_services/rounds-over"]}
